@@ -155,7 +155,7 @@ def run_inproc(spec, args, disk=False, found_suites='auto', cwd=None, script_par
             tracer = runtime.Tracer(trace_path)
             os.environ['ZTV_SPEC'] = spec_path
             os.environ['ZTV_TRACE'] = trace_path
-            argv += ['--path', src, '--tests-pattern', '^%st_' % spec['mp']]
+            argv[1:1] = ['--path', src, '--tests-pattern', '^%st_' % spec['mp']]
             run.workdir = workdir
             run.src = src
             suites = None
@@ -265,7 +265,7 @@ class World:
             e['ZTV_CONTROL'] = control
         if env:
             e.update(env)
-        argv = [python or sys.executable, ZT_MAIN] + list(args) + (self.base_args() if base_args else [])
+        argv = [python or sys.executable, ZT_MAIN] + (self.base_args() if base_args else []) + list(args)
         run = Run()
         t0 = time.time()
         try:
@@ -300,7 +300,7 @@ class World:
             e['ZTV_CONTROL'] = control
         if env:
             e.update(env)
-        argv = [sys.executable, ZT_MAIN] + list(args) + self.base_args()
+        argv = [sys.executable, ZT_MAIN] + self.base_args() + list(args)
         out = open(os.path.join(self.dir, 'out%d.bin' % self.n), 'wb')
         err = open(os.path.join(self.dir, 'err%d.bin' % self.n), 'wb')
         p = subprocess.Popen(argv, stdout=out, stderr=err, stdin=subprocess.DEVNULL,
